@@ -4584,7 +4584,8 @@ func (c *BytecodeCompiler) listOrTuplePattern(typ types.Type, location *position
 
 	var lengthVar *bytecodeLocal
 	if elementBeforeRestCount != -1 {
-		lengthVar = c.defineLocal(fmt.Sprintf("#!listPatternLength%d", c.patternNesting), location)
+		// sibling patterns on the same nesting level reuse the hidden local
+		lengthVar = c.defineLocal(fmt.Sprintf("#!listPatternLength%d", c.patternNesting), nil)
 		c.emitSetLocalNoPop(location.StartPos.Line, lengthVar.index)
 	}
 
@@ -4620,7 +4621,7 @@ func (c *BytecodeCompiler) listOrTuplePattern(typ types.Type, location *position
 	}
 
 	if elementBeforeRestCount != -1 {
-		iteratorVar := c.defineLocal(fmt.Sprintf("#!listPatternIterator%d", c.patternNesting), location)
+		iteratorVar := c.defineLocal(fmt.Sprintf("#!listPatternIterator%d", c.patternNesting), nil)
 
 		if restVariableName != "" {
 			// adjust the length variable
